@@ -359,13 +359,18 @@ fn replay_main(a: &[String]) {
     let steps_total = AtomicUsize::new(0);
     let binding_errors = Mutex::new(Vec::<String>::new());
     let workers = std::thread::available_parallelism().map(|x| x.get()).unwrap_or(4).min(8);
+    // every deadlocked history costs the child deadline; after a few of them the verdict is clear and the remaining
+    // histories are not run (the report says how many were)
+    let deadlocked = AtomicUsize::new(0);
     std::thread::scope(|s| {
         for _ in 0..workers {
             s.spawn(|| loop {
+                if deadlocked.load(Ordering::Relaxed) >= 16 { break; }
                 let hi = next.fetch_add(1, Ordering::Relaxed);
                 if hi >= n { break; }
                 let order = lines[hi]["order"].as_array().unwrap();
                 let (steps, obs) = run_history(order);
+                if obs.iter().all(|o| o["out"]["kind"] == "timeout") { deadlocked.fetch_add(1, Ordering::Relaxed); }
                 steps_total.fetch_add(order.len(), Ordering::Relaxed);
                 for (i, st) in order.iter().enumerate() {
                     let c = json!({"op": steps[i]["op"], "args": steps[i]["args"]});
@@ -413,7 +418,8 @@ fn replay_main(a: &[String]) {
     let mut f = std::fs::File::create(&a[1]).expect("report");
     for (_, _, m) in &mm { writeln!(f, "{}", m).unwrap(); }
     let failing: std::collections::BTreeSet<usize> = mm.iter().map(|x| x.0).collect();
-    println!("{}", json!({"cases": n, "steps": steps_total.load(Ordering::Relaxed), "mismatches": mm.len(), "failing_histories": failing.len(),
+    println!("{}", json!({"cases": n, "histories_run": next.load(Ordering::Relaxed).min(n), "deadlocked_histories": deadlocked.load(Ordering::Relaxed),
+                          "steps": steps_total.load(Ordering::Relaxed), "mismatches": mm.len(), "failing_histories": failing.len(),
                           "distinct_concrete_calls": fmap.lock().unwrap().len(), "samples": samples.into_inner().unwrap()}));
 }
 
